@@ -146,6 +146,9 @@ class Registry:
         self.lemmas = {}          # property-level lemmas: name -> function
         self.props = {}           # property id -> PropertySpec
         self.ghosts = {}          # qual -> (module name, python source of a ghost program)
+        self.aliases = {}         # (class qual, ghost attribute) -> real attribute
+        self.impls = {}           # abstract contract qual -> [implementing contract quals]
+        self.ilaw_lemmas = {}     # (implementation name, ILAW name) -> ghost lemma qual
 
     def contract(self, qual):
         c = self.contracts.get(qual)
@@ -163,6 +166,29 @@ class Registry:
     def get(self, qual):
         return self.contracts.get(qual)
 
+    def alias(self, cls, **m):
+        for k, v in m.items():
+            self.aliases[(cls, k)] = v
+
+    def finalize(self):
+        """refinement: an implementing contract inherits the interface clauses (guarded by the interface's
+        precondition) as additional obligations named refines:<clause>"""
+        for q, c in list(self.contracts.items()):
+            if not c.refines_qual or getattr(c, "_refined", False):
+                continue
+            iface = self.contracts[c.refines_qual]
+            self.impls.setdefault(c.refines_qual, []).append(q)
+            guard = " and ".join("(%s)" % r.expr for r in iface.pre) or None
+            for cl in iface.post:
+                n = Clause("ensures", "refines:" + cl.name, cl.expr, guard if cl.when is None else ("(%s) and (%s)" % (guard, cl.when) if guard else cl.when), cl.tags | {"REFINE"})
+                n.on = getattr(cl, "on", "return")
+                c.post.append(n)
+            for cl in iface.exc:
+                if guard:
+                    raise ValueError("interface %s: raises clauses under a precondition are not supported" % c.refines_qual)
+                c.exc.append(Clause("raises", "refines:" + cl.name, cl.expr, None, cl.tags | {"REFINE"}, exc=cl.exc))
+            c._refined = True
+
     def ghost_function(self, qual, module, src):
         import textwrap
         self.ghosts[qual] = (module, textwrap.dedent(src))
@@ -179,4 +205,5 @@ def load_all():
     for fn in sorted(os.listdir(d)):
         if fn.endswith(".py") and not fn.startswith("_"):
             importlib.import_module("contracts." + fn[:-3])
+    REG.finalize()
     return REG
